@@ -119,7 +119,9 @@ def generate(rng, tier):
         elif r < 0.62:
             ops.append({"op": "remove", "name": rng.choice(names)})
         elif r < 0.7:
-            ops.append({"op": "remove_unknown", "name": rng.choice(["ghost", "pos2", "", "C0"])})
+            ops.append({"op": "remove_unknown", "name": rng.choice(["ghost", "pos2", "", "C0",
+                                                                   # names the cell table's own type (a pandas DataFrame) answers to as attributes
+                                                                   "mask", "size", "count", "values", "index", "shape", "T", "mean", "columns", "loc"])})
         elif r < 0.85:
             ops.append({"op": "overwrite", "name": rng.choice(names)})
         else:
